@@ -365,6 +365,7 @@ func checkC16(c *Ctx) error {
 				for _, bs := range []int{0, 1, 2, 4, 5, 6} {
 					ncases = append(ncases, c16NativeCase{agent: ai.name, skill: ai.skill, sub: sub, user: user, customKind: customKind, baseState: bs})
 					if bs == 0 || bs == 5 {
+						ncases = append(ncases, c16NativeCase{agent: ai.name, skill: ai.skill, sub: sub, user: user, customKind: customKind, baseState: bs, xdg: true})
 						for _, um := range []string{"077", "027"} {
 							if um == "027" && !c.Thorough() {
 								continue
@@ -393,6 +394,7 @@ func checkC16(c *Ctx) error {
 	c.Assume("filepath.Abs of the custom path is an arbitrary clean absolute path (one symbol per argument); Join has its exact semantics on clean operands; $HOME and cwd are clean absolute paths")
 	c.Assume("native differential: every (agent, --user, --path kind, base state except unreadable) case is also run through the CLI built from the working tree with one concrete HOME / cwd / --path (a directory name containing a space included) and judged by the same documented expectation")
 	c.Assume("the process umask is an environment parameter: symbolic runs fork over {022, 027, 077} wherever a file is created with an explicit permission argument; the native cases for fresh and older-content destinations are repeated under umask 077 (thorough: 027 too)")
+	c.Assume("environment variables other than HOME are arbitrary symbolic strings in the model (one per name); natively the fresh / older-content cases are repeated with XDG_{CONFIG,DATA,STATE,CACHE}_HOME pointing elsewhere")
 	c.Assume("tilde expansion and relative --path resolution against cwd are those of filepath.Abs (outside the stub: trusted)")
 	return nil
 }
